@@ -52,7 +52,7 @@ def cases(tier, seed, ctx=None):
         table = []
         for _ in range(rng.range(0, 4)):
             table.append([rng.choice(USERS), rng.choice(PASSES)])
-        realm = rng.choice([b"R", b"My Realm", b""])
+        realm = rng.choice([b"R", b"My Realm", b"", b'say "hi"', b"back\\slash", b'q"\\"'])
         kind = rng.below(16)
         u, p = (rng.choice(table) if table and rng.chance(4, 5) else [rng.choice(USERS), rng.choice(PASSES)])
         tok = base64.b64encode(u + b":" + p)
